@@ -181,15 +181,21 @@ theorem eh_rawNow (s0 : List PItem) (K : List FTok) : EH s0 K (fun _ => []) rawN
   unfold rawNow
   exact eh_bind good_get (eh_get s0 K) (fun _ => eh_pure _ _ _ _ (by simp))
 
+theorem eh_dropBad (s0 : List PItem) (K : List FTok) : EH s0 K (fun _ => []) dropBad := by
+  intro s _ _
+  rw [runP_dropBad]
+  intro t ht; simp at ht
+
 theorem eh_pseudoBranch (s0 : List PItem) (K : List FTok) (i : String) (m : FTok) (a b : W Reg) (l : W String) :
     EH s0 K (fun _ => []) (pseudoBranch i m a b l) := by
   unfold pseudoBranch
   exact eh_bind good_rawNow (eh_rawNow s0 K) (fun _ => eh_pure _ _ _ _ (by simp))
 
 attribute [local irreducible] Good EH getReg getImm getLabel getCsrImm getString getAny peekAny expectRParen rawNow
-  pseudoBranch liftE
+  pseudoBranch liftE dropBad
 
 macro "eh_step" : tactic => `(tactic| first
+  | exact good_dropBad | exact eh_dropBad _ _
   | exact good_getReg | exact good_getImm | exact good_getLabel | exact good_getCsrImm | exact good_getString
   | exact good_getAny | exact good_peekAny | exact good_expectRParen | exact good_rawNow | exact good_get
   | exact eh_getReg _ _ | exact eh_getImm _ _ | exact eh_getLabel _ _ | exact eh_getCsrImm _ _
